@@ -88,3 +88,13 @@ package cmpp
 //@   props C02,C03
 //@   ensures [C03 short] len(d) < 12 ==> err != nil
 //@   ensures [C02 fields] len(d) >= 12 ==> err == nil && int(h.TotalLength) == dbe32(take(content(d), 4)) && int(h.CommandID) == dbe32(take(drop(content(d), 4), 4)) && int(h.SequenceID) == dbe32(take(drop(content(d), 8), 4))
+
+// The decimal string form: fmt.Sprintf / fmt.Sscanf with a seven-field format are outside the verifier's models, so
+// these two contracts are ASSUMED (`trusted`) and exercised by the bounded stand-in TestValidator_MSGID on every run
+// of the C17 check. The bit-level functions above are proved for all 2^64 ids.
+//@ func MsgID2String
+//@   props C17
+//@   trusted
+//@ func MsgIDString2Uint64
+//@   props C17
+//@   trusted
